@@ -1,3 +1,3 @@
 import ZCV.Props.C07
 open ZCV.Props.C07
-#print axioms C07_directive_total
+#print axioms C07_lineShape_no_internal
